@@ -15,6 +15,9 @@
  *   - no proper prefix (shorter than the accepted length) of an accepted header is accepted
  *   - rf_wavheader_validate / get_format / tostring return without a fault on whatever
  *     structure the call left behind (accepted, incomplete or rejected alike).
+ *   - the same length contract when the library has been used before: every deviating header,
+ *     at full length, is decoded, then its template at the same address and length, then the
+ *     header again, without a reset of the library's statics in between (c14_call_history).
  * For headers whose length the statement does not define (fmt size < 16, 17 or odd;
  * cb_size 22 inside a fmt chunk that is not 40 bytes; a fact chunk whose size field is
  * not 4) only memory safety, r >= 44, the truncation clause and the helper clause are
@@ -168,6 +171,76 @@ static void c14_big(const w_bigcase *c)
 	free(rp);
 }
 
+/* the length contract of the statement for one result; hist = "" for a call on the library's start-up state, else the name of
+ * the call history that preceded it (part of the class key) */
+static void c14_judge_as(const w_case *c, const w_case *rc /* the case whose replay text reproduces the call */, int t, int ret, const char *hist)
+{
+	char ct[400], key[96]; w_ref ref;
+	int accepted = ret >= 0 && ret <= t;
+	w_ref_parse(c->buf, (uint64_t)t, &ref);
+	snprintf(ct, sizeof(ct), "%s|sz=%d|ret=%d", c->desc, t, ret);
+#define C14_KEY(k) (snprintf(key, sizeof(key), "%s%s", k, hist), key)
+	if (accepted) {
+		if (ret < RF_WAVHEADER_MIN_SIZE)
+			w_report(C14_KEY("min-size"), ct, case_rp(rc),
+				 "rf_wavheader_decode(%d bytes) = %d: reported as success (0 <= r <= sz) with a header length below RF_WAVHEADER_MIN_SIZE (%d); "
+				 "fmt_chunk_size=0x%x; reference: %s; input %s", t, ret, (int)RF_WAVHEADER_MIN_SIZE, ref.fmt_size,
+				 ref.complete ? "complete" : "header does not end inside the supplied bytes", hexof(c->buf, t));
+		else if (!ref.consistent) {
+			if (!*hist) W_COUNT("inconsistent_headers_accepted", 1);
+			if (!*hist && (!ref.complete || ref.len != (uint64_t)ret)) {
+				W_COUNT("inconsistent_headers_length_disagrees", 1);
+				vx_note("accepted headers whose length the statement leaves undefined disagree with the reference grammar (not enforced, see counter inconsistent_headers_length_disagrees)");
+			}
+		} else if (!ref.complete)
+			w_report(C14_KEY("incomplete-accepted"), ct, case_rp(rc),
+				 "rf_wavheader_decode(%d bytes) = %d: success although the header does not end inside the supplied bytes (reference length %llu); input %s",
+				 t, ret, (unsigned long long)ref.len, hexof(c->buf, t));
+		else if (ref.len != (uint64_t)ret)
+			w_report(C14_KEY("length-mismatch"), ct, case_rp(rc),
+				 "rf_wavheader_decode(%d bytes) = %d but the header occupies %llu bytes; input %s",
+				 t, ret, (unsigned long long)ref.len, hexof(c->buf, t));
+	} else if (ret > t) {
+		if (ref.consistent && ref.complete)
+			w_report(C14_KEY("complete-reported-incomplete"), ct, case_rp(rc),
+				 "rf_wavheader_decode(%d bytes) = %d (> sz) although the complete %llu-byte header was supplied; input %s",
+				 t, ret, (unsigned long long)ref.len, hexof(c->buf, t));
+	}
+#undef C14_KEY
+}
+static void c14_judge(const w_case *c, int t, int ret, const char *hist) { c14_judge_as(c, c, t, ret, hist); }
+
+/* "For every byte string": also when the library has decoded something else before. Call history of length three on the
+ * library state the first decode left behind (no reset): the case's template at the same address and the same length, then
+ * the case's own input again; each result is held against the same contract. A decoder that remembers its last call by
+ * address and size, or keeps a cursor from one call to the next, shows here - inside one replayable case. */
+static void c14_call_history(const w_case *c, int t)
+{
+	char key[400], ct[400];
+	const uint8_t *other = w_tmpl[c->tmpl].bytes;
+	w_case oc;
+	for (int pass = 0; pass < 2; pass++) {
+		const uint8_t *src = pass == 0 ? other : c->buf;
+		const uint8_t *p = w_place(src, t, 1);
+		int ret = 0;
+		memset(w_wh, 0xa5, sizeof(*w_wh));
+		W_COUNT("call_history_decodes", 1);
+		if (VX_TRY) { ret = rf_wavheader_decode(p, (unsigned)t, w_wh); VX_END; }
+		else {
+			VX_END; w_after_fault();
+			snprintf(key, sizeof(key), "decode-fault|%s|after another decode call", vx_fault_msg);
+			snprintf(ct, sizeof(ct), "%s|sz=%d|call=%d", c->desc, t, pass + 2);
+			w_report(key, ct, case_rp(c), "rf_wavheader_decode faults (%s) on %d bytes %s when it is call number %d on the same buffer", vx_fault_msg, t, hexof(src, t), pass + 2);
+			return;
+		}
+		if (pass == 0) {	/* judged as the input it is: the template's bytes */
+			oc = *c; memcpy(oc.buf, other, (size_t)c->n);
+			snprintf(oc.desc, sizeof(oc.desc), "%.200s:then-template", c->desc);
+			c14_judge_as(&oc, c, t, ret, "|second-call");
+		} else c14_judge(c, t, ret, "|third-call");
+	}
+}
+
 /* results of the prefixes a case shares with its parent (the case without the last deviation): the same bytes at the same
  * length are an input of the parent and are judged there; the truncation clause of THIS case still needs to know whether
  * they were accepted. The parent's prefixes are decoded once per parent (the deviating fields of its children come in
@@ -241,32 +314,7 @@ static void c14_case(const w_case *c)
 		}
 
 		/* ---- the length contract */
-		if (accepted) {
-			if (ret < RF_WAVHEADER_MIN_SIZE)
-				w_report("min-size", ct, case_rp(c),
-					 "rf_wavheader_decode(%d bytes) = %d: reported as success (0 <= r <= sz) with a header length below RF_WAVHEADER_MIN_SIZE (%d); "
-					 "fmt_chunk_size=0x%x; reference: %s; input %s", t, ret, (int)RF_WAVHEADER_MIN_SIZE, ref.fmt_size,
-					 ref.complete ? "complete" : "header does not end inside the supplied bytes", hexof(c->buf, t));
-			else if (!ref.consistent) {
-				W_COUNT("inconsistent_headers_accepted", 1);
-				if (!ref.complete || ref.len != (uint64_t)ret) {
-					W_COUNT("inconsistent_headers_length_disagrees", 1);
-					vx_note("accepted headers whose length the statement leaves undefined disagree with the reference grammar (not enforced, see counter inconsistent_headers_length_disagrees)");
-				}
-			} else if (!ref.complete)
-				w_report("incomplete-accepted", ct, case_rp(c),
-					 "rf_wavheader_decode(%d bytes) = %d: success although the header does not end inside the supplied bytes (reference length %llu); input %s",
-					 t, ret, (unsigned long long)ref.len, hexof(c->buf, t));
-			else if (ref.len != (uint64_t)ret)
-				w_report("length-mismatch", ct, case_rp(c),
-					 "rf_wavheader_decode(%d bytes) = %d but the header occupies %llu bytes; input %s",
-					 t, ret, (unsigned long long)ref.len, hexof(c->buf, t));
-		} else if (ret > t) {
-			if (ref.consistent && ref.complete)
-				w_report("complete-reported-incomplete", ct, case_rp(c),
-					 "rf_wavheader_decode(%d bytes) = %d (> sz) although the complete %llu-byte header was supplied; input %s",
-					 t, ret, (unsigned long long)ref.len, hexof(c->buf, t));
-		}
+		c14_judge(c, t, ret, "");
 
 		/* ---- helpers on whatever structure came out (once per distinct observation) */
 		int fresh = 1;
@@ -292,6 +340,13 @@ static void c14_case(const w_case *c)
 		}
 	}
 	if (w_hang_abort) return;
+
+	/* ---- the same contract when the library has been used before (full length, headers that deviate from their template) */
+	if (c->tmpl >= 0 && c->nd != 0 && rets[c->n] != INT_MIN) {
+		int ret = 0;
+		if (!do_decode(c->buf, c->n, 1, &ret)) c14_call_history(c, c->n);	/* do_decode: reset, then call number one */
+		if (w_hang_abort) return;
+	}
 
 	/* ---- truncating an accepted header never yields success (the accepted header is one of this case's own inputs) */
 	for (int t = c->tmin; t <= c->n && t < rmax; t++)
